@@ -1,6 +1,24 @@
 //! native replay of a Kani counterexample: cgt-verif-replay <harness> <v1> <v2> ...   exit 0 = assertions hold, 101 = assertion failed (reproduced)
 fn main() {
     let a: Vec<String> = std::env::args().collect();
+    if a.len() == 3 && a[1] == "--ledger" {
+        // witness replay for known findings: run the real parser + calculator on a ledger and print what happened
+        let text = std::fs::read_to_string(&a[2]).expect("ledger file");
+        let txs = match cgt_core::parser::parse_file(&text) { Ok(t) => t, Err(e) => { println!("PARSE-ERROR: {e}"); return; } };
+        let cfg = cgt_core::Config::embedded().expect("embedded config");
+        match cgt_core::calculator::calculate(&txs, None, None, &cfg) {
+            Ok(rep) => {
+                println!("ACCEPTED");
+                for y in &rep.tax_years { for d in &y.disposals { for m in &d.matches {
+                    println!("LEG {} {} {:?} qty={} cost={}", d.date, d.ticker, m.rule, m.quantity, m.allowable_cost);
+                    if m.allowable_cost < rust_decimal::Decimal::ZERO { println!("NEGATIVE-COST"); }
+                } } }
+                for h in &rep.holdings { println!("HOLDING {} qty={} cost={}", h.ticker, h.quantity, h.total_cost); }
+            }
+            Err(e) => println!("REJECTED: {e}"),
+        }
+        return;
+    }
     let vals: Vec<i128> = a[2..].iter().map(|x| x.parse().expect("integer")).collect();
     cgt_verif_kani::run_concrete(&a[1], vals);
     println!("REPLAY-OK: all assertions of {} hold for these inputs", a[1]);
